@@ -690,7 +690,9 @@ def exG : State :=
     store := [(101, ⟨1, 1, none, false⟩), (102, ⟨2, 2, none, false⟩), (103, ⟨3, 3, none, false⟩)]
     nextId := 5
     queue := [(.put 4 14 6 104 7, some 0)]
-    acks := [.pending] }
+    acks := [.pending]
+    -- the doorkeeper has seen one unrelated hash, so that a "present" answer for another hash is a legal false positive
+    lfu := { TinyLFU.new 16 [1, 2, 3, 4] with dk := [99] } }
 
 def exB : BState := { g := exG, cl := [.idle], res := [[]] }
 
